@@ -42,11 +42,6 @@ int *vf_errno_location(void) { return &vf_errno_a[vf_tid]; }
 uint64_t vf_in_last; /* trace marker: every harness input, in consumption order */
 /* drawing an input is also a visible operation: the native replay hands out inputs in schedule order */
 static inline uint64_t vf_log_in(uint64_t v) { vf_vis_t = vf_tid; vf_in_last = v; return v; }
-#elif defined(VF_SCALAR_INLOG)
-/* sequential engine, opt-in (rt_defs): scalar input log - in a sequential program the trace order of the
- * assignments is the consumption order; avoids one symbolic-index array write per drawn input */
-uint64_t vf_in_last;
-static inline uint64_t vf_log_in(uint64_t v) { vf_in_last = v; return v; }
 #else
 static inline uint64_t vf_log_in(uint64_t v) {
 #ifndef VF_NO_INLOG
